@@ -362,11 +362,18 @@ impl FsContext<'_> {
     /// Run `f` if we're in a simulation context, otherwise no-op.
     /// Used in drop paths where the simulation may be shutting down.
     pub fn current_if_set(f: impl FnOnce(FsContext<'_>)) {
+        // Drop paths also run while a panic unwinds through a filesystem
+        // call (e.g. a `Reaction::Panic` barrier fired from the corruption
+        // hook), which poisons the mutex; panicking again here would abort
+        // the process instead of surfacing that panic.
         if Self::in_worker_context() {
             WORKER_FS_CONTEXT.with(|ctx| {
                 let borrowed = ctx.borrow();
                 let worker_ctx = borrowed.as_ref().unwrap();
-                let mut fs_guard = worker_ctx.fs.lock().unwrap();
+                let mut fs_guard = worker_ctx
+                    .fs
+                    .lock()
+                    .unwrap_or_else(std::sync::PoisonError::into_inner);
                 let now = worker_ctx.time;
                 f(FsContext {
                     fs: &mut fs_guard,
@@ -379,7 +386,9 @@ impl FsContext<'_> {
         let Some(arc) = CURRENT_FS_ARC.with(|c| c.borrow().as_ref().map(Arc::clone)) else {
             return;
         };
-        let mut lock = arc.lock().expect("Fs mutex poisoned");
+        let mut lock = arc
+            .lock()
+            .unwrap_or_else(std::sync::PoisonError::into_inner);
         let now = CURRENT_NOW.with(|c| c.get());
         f(FsContext { fs: &mut lock, now });
     }
